@@ -88,6 +88,8 @@ func mkValue(typed bool, o opDesc) interface{} {
 			return &item{N: o.N}
 		}
 		return map[string]string{"n": strconv.Itoa(o.N)}
+	case 9:
+		return nil // nil interface value: not of the store type
 	default:
 		return otherStruct{N: o.N}
 	}
@@ -581,6 +583,21 @@ func runConcurrent(cd caseDesc, sc *scratch) result {
 			}
 		}
 	}
+	// how much contention the run really had
+	lastGor := map[string]int{}
+	for i, a := range runs {
+		if g, ok := lastGor[a.desc.ID]; ok && g != a.gor {
+			res.dist["conc_same_id_handover"]++
+		}
+		lastGor[a.desc.ID] = a.gor
+		for j := i + 1; j < len(runs) && runs[j].start < a.end; j++ {
+			if runs[j].desc.ID != a.desc.ID {
+				res.dist["conc_overlap_other_id"]++
+			} else {
+				res.dist["conc_overlap_readers"]++
+			}
+		}
+	}
 	for _, tr := range runs {
 		m := "R"
 		if tr.desc.Write {
@@ -600,13 +617,17 @@ func runConcurrent(cd caseDesc, sc *scratch) result {
 
 // ---- generators ----
 
-var seqIDs = []string{"a", "b", "c", ""}
+// nil interface values are passed to Create/Update too (badgerstore used to panic in reflect; fixed in /repo). VERIF_C11_NIL=0 leaves them out.
+var nilValues = os.Getenv("VERIF_C11_NIL") != "0"
 
 func genOp(r *Rng, cd caseDesc, kinds []string) opDesc {
 	o := opDesc{K: r.Pick(kinds), N: r.Intn(9)}
 	if o.K == "create" || o.K == "update" {
 		if r.Chance(12) {
 			o.Wrong = 1 + r.Intn(4)
+			if nilValues && cd.Store == "badger" && r.Chance(40) {
+				o.Wrong = 9
+			}
 		}
 	}
 	if cd.BeforeChange && (o.K == "create" || o.K == "update" || o.K == "delete") && r.Chance(15) {
@@ -807,7 +828,7 @@ func main() {
 			}
 		}
 		// (b) random sequential histories, 1-25 operations, one or several per transaction
-		nseq, nconc := 500, 40
+		nseq, nconc := 1000, 60
 		if thorough {
 			nseq, nconc = 12000, 800
 		}
